@@ -212,6 +212,7 @@ func runAPI(h apiHist) apiOutcome {
 				call = clock.Tick()
 				pl.ConnectionReady(sess)
 				rec(g4lib.PLOp{Kind: g4lib.PReady, Slot: slot, Call: call, Ret: clock.Tick()})
+				var prevQ *sql.Context // context of this connection's previous, already ended query
 				for bi, st := range cp.Body {
 					switch st.Kind {
 					case "query", "dup":
@@ -232,6 +233,14 @@ func runAPI(h apiHist) apiOutcome {
 							verifhook.Point("harness.conn.in-query")
 							look(slot)
 						}
+						if prevQ != nil && bi%2 == 1 {
+							// a late, repeated end-of-query notification for the connection's PREVIOUS query (what a
+							// delayed iterator Close produces) while this one is in flight: it names another pid
+							// and must leave the running query, its context and the counters alone
+							endQ(slot, prevQ)
+							look(slot)
+						}
+						prevQ = ctx
 						if st.N == 2 { // the documented error: an operation while a query is running
 							if octx, ok := beginOp(slot); ok {
 								endOp(slot, octx)
